@@ -2,6 +2,7 @@ package gen
 
 import (
 	"fmt"
+	"strings"
 
 	m "verif/internal/model"
 	"verif/internal/value"
@@ -112,6 +113,8 @@ func ParamMatrix() *m.Design {
 		Features: []string{"fixed-design:param-matrix", "cookie", "renamed-cookie", "response-cookie", "response-header", "required-default-optional-matrix", "typed-params"}}
 }
 
+func typeLevelView(a *m.Attr, view string) *m.Attr { a.View = view; return a }
+
 // ViewMatrix is a fixed design that crosses, inside the views of one result
 // type, sibling attributes of the same nested result type with every way of
 // choosing the nested view (no override, each named view), in several
@@ -136,12 +139,15 @@ func ViewMatrix() *m.Design {
 		}}
 	arr := func(e *m.Attr) *m.Attr { return &m.Attr{Type: &m.Type{Kind: m.Array, Elem: e}} }
 	tree := &m.UserType{Name: "Tree", Var: "vtree", Result: true, Identifier: "application/vnd.matrix.tree",
-		Attr: obj(fld("title", str(), true), fld("l1", m.UserRef("Leaf"), false), fld("l2", m.UserRef("Leaf"), false), fld("l3", m.UserRef("Leaf"), false), fld("many", arr(m.UserRef("Leaf")), false)),
+		// l4 carries a view at the type level (Attribute("l4", Leaf, func(){ View("tiny") })):
+		// views that list them without an override inherit it, views may override it, also back to "default"
+		Attr: obj(fld("title", str(), true), fld("l1", m.UserRef("Leaf"), false), fld("l2", m.UserRef("Leaf"), false), fld("l3", m.UserRef("Leaf"), false), fld("many", arr(m.UserRef("Leaf")), false),
+			fld("l4", typeLevelView(m.UserRef("Leaf"), "tiny"), false), fld("lots", arr(m.UserRef("Leaf")), false)),
 		Views: []*m.View{
-			{Name: "default", Fields: vf("title", "", "l1", "", "l2", "tiny", "l3", "extended", "many", "")},
-			{Name: "alt", Fields: vf("title", "", "l1", "tiny", "l2", "", "l3", "tiny", "many", "tiny")},
-			{Name: "rev", Fields: vf("l3", "extended", "title", "", "l1", "", "l2", "tiny")},
-			{Name: "one", Fields: vf("title", "", "l2", "extended")},
+			{Name: "default", Fields: vf("title", "", "l1", "", "l2", "tiny", "l3", "extended", "many", "", "l4", "", "lots", "")},
+			{Name: "alt", Fields: vf("title", "", "l1", "tiny", "l2", "", "l3", "tiny", "many", "tiny", "l4", "default", "lots", "default")},
+			{Name: "rev", Fields: vf("l3", "extended", "title", "", "l1", "", "l2", "tiny", "lots", "tiny", "l4", "extended")},
+			{Name: "one", Fields: vf("title", "", "l2", "extended", "l4", "")},
 		}}
 	trees := &m.UserType{Name: "TreeCollection", Var: "vtrees", Result: true, CollectionOf: "Tree"}
 	get := func(name, view string, t string) *m.Method {
@@ -368,4 +374,31 @@ func ValidationMatrix() *m.Design {
 	return &m.Design{API: m.API{Name: "validations", Title: "Validation matrix"},
 		Services: []*m.Service{{Name: "validations", HasHTTP: true, Methods: methods}},
 		Features: []string{"fixed-design:validation-matrix", "pattern", "format", "same-attribute-name-different-constraints"}}
+}
+
+// VerbMatrix is a fixed design with one endpoint per HTTP verb (HEAD included:
+// goa only accepts HEAD routes on endpoints whose responses and errors carry no
+// body, which random designs almost never satisfy), HEAD next to GET on one
+// path, several verbs on one path, and a parameterised path per verb.
+func VerbMatrix() *m.Design {
+	obj := func(fs ...*m.Field) *m.Attr { return &m.Attr{Type: &m.Type{Kind: m.Object, Fields: fs}} }
+	fld := func(n string, a *m.Attr, req bool) *m.Field { return &m.Field{Name: n, Attr: a, Required: req} }
+	var methods []*m.Method
+	for _, v := range []string{"GET", "HEAD", "POST", "PUT", "PATCH", "DELETE", "OPTIONS", "TRACE"} {
+		lv := strings.ToLower(v)
+		methods = append(methods,
+			&m.Method{Name: lv + "_plain", HTTP: &m.HTTPEndpoint{Routes: []m.Route{{Verb: v, Path: "/verbs/" + lv}}, Responses: []*m.Response{{Status: 204}}}},
+			&m.Method{Name: lv + "_item", Payload: obj(fld("id", m.Prim(m.String), true), fld("q", m.Prim(m.Int), false)),
+				HTTP: &m.HTTPEndpoint{Routes: []m.Route{{Verb: v, Path: "/verbs/items/{id}/" + lv}}, Path: []m.Mapping{{Attr: "id"}}, Query: []m.Mapping{{Attr: "q"}}, Responses: []*m.Response{{Status: 204}}}})
+	}
+	// HEAD and GET (and DELETE) on the same path
+	methods = append(methods,
+		&m.Method{Name: "shared_get", HTTP: &m.HTTPEndpoint{Routes: []m.Route{{Verb: "GET", Path: "/verbs/shared/{id}"}}, Path: []m.Mapping{{Attr: "id"}}, Responses: []*m.Response{{Status: 204}}}, Payload: obj(fld("id", m.Prim(m.String), true))},
+		&m.Method{Name: "shared_head", HTTP: &m.HTTPEndpoint{Routes: []m.Route{{Verb: "HEAD", Path: "/verbs/shared/{id}"}}, Path: []m.Mapping{{Attr: "id"}}, Responses: []*m.Response{{Status: 204}}}, Payload: obj(fld("id", m.Prim(m.String), true))},
+		&m.Method{Name: "shared_delete", HTTP: &m.HTTPEndpoint{Routes: []m.Route{{Verb: "DELETE", Path: "/verbs/shared/{id}"}}, Path: []m.Mapping{{Attr: "id"}}, Responses: []*m.Response{{Status: 204}}}, Payload: obj(fld("id", m.Prim(m.String), true))},
+		// one endpoint, two routes of different verbs
+		&m.Method{Name: "ping", HTTP: &m.HTTPEndpoint{Routes: []m.Route{{Verb: "HEAD", Path: "/verbs/ping"}, {Verb: "OPTIONS", Path: "/verbs/ping"}}, Responses: []*m.Response{{Status: 204}}}})
+	return &m.Design{API: m.API{Name: "verbs", Title: "Verb matrix"},
+		Services: []*m.Service{{Name: "verbs", HasHTTP: true, Methods: methods}},
+		Features: []string{"fixed-design:verb-matrix", "all-verbs", "head-route", "two-verbs-one-path"}}
 }
